@@ -229,10 +229,65 @@ def judge_entries(case, name, entries, ca, cb, tol, exact):
     return True
 
 
+def internal_case(ctx):
+    """the intersection calls that operators, containment tests and == make internally,
+    observed by a post-condition on the real JordanCurve.intersection (soundness part:
+    ranges, coincidence of the two evaluations, (None, None) only for identical segments)"""
+    import shapepy
+    from shapepy import jordancurve as jc
+
+    from vf import contracts, model as M, opwork as W, props as P
+
+    rng = ctx.rng
+    sa, sb, info = W.make_pair(rng, curved_prob=0.25, kinds="SSSSCDUV")
+    case = Case(ctx, {"A": sa, "B": sb, "mode": "internal"}, "internal-%s" % ("curved" if (G.spec_is_curved(sa) or G.spec_is_curved(sb)) else G.spec_num(sa)))
+    mon = contracts.Monitors()
+    seen = {"n": 0, "nonempty": 0}
+
+    def post(token, args, kwargs, result, exc):
+        if exc is not None:
+            return
+        ja, jb = args[0], args[1]
+        ca, cb = S.snap_curve(ja), S.snap_curve(jb)
+        L = max(1.0, O.diameter(O.curves_bbox([ca, cb])))
+        rational = O.is_polygonal(ca) and O.is_polygonal(cb) and all(isinstance(v, (int, Fr)) for v in S.raw_numbers(ja) + S.raw_numbers(jb))
+        case.count("intersection:judged")
+        case.judged()
+        seen["n"] += 1
+        if len(result):
+            seen["nonempty"] += 1
+        judge_entries(case, "intersection (called internally)", result, ca, cb, 1e-6 * L, rational)
+
+    mon.attach(jc.JordanCurve, "intersection", post=post, label="JordanCurve.intersection")
+    try:
+        calls = [("or", lambda a, b: a | b), ("sub", lambda a, b: a - b), ("in", lambda a, b: b in a), ("eq", lambda a, b: a == b)]
+        if G.spec_is_curved(sa) or G.spec_is_curved(sb):
+            calls = rng.sample(calls, 2)
+        for name, fn in calls:
+            A, B = G.build(sa), G.build(sb)
+            guard = P.BigNumGuard()
+            guard.install()
+            try:
+                P.guarded_call(fn, A, B)
+            finally:
+                guard.remove()
+            if case.violations:
+                break
+    finally:
+        mon.detach_all()
+    for v in mon.take_violations():
+        case.unsure("monitor error: %s" % str(v.get("tb", v["message"]))[-300:])
+    case.nontrivial = seen["nonempty"] > 0
+    case.spec["intersection_calls"] = seen["n"]
+    return case.finish()
+
+
 def case(ctx):
     import shapepy
 
     rng = ctx.rng
+    if ctx.index % 6 == 5:
+        return internal_case(ctx)
     speca, specb, stratum = make_pair(rng)
     case = Case(ctx, {"A": speca, "B": specb}, stratum)
     ja, jb = G.build(speca).jordans[0], G.build(specb).jordans[0]
